@@ -165,16 +165,18 @@ class _null:
 
 # -- (d) infeasible period is rejected -------------------------------------------------------------------------
 def infeasible_case(item) -> Dict[str, Any]:
-    prog, extra_len, errors, twin = item
+    prog, extra_len, errors, twin = item[:4]
+    untyped = len(item) > 4 and item[4] == 'untyped'
     install_user_functions()
     text = render(prog, Layout())
-    pb = parse_and_build(text)
-    out = {'kind': 'infeasible', 'item': f'{show(prog)} +{extra_len} {errors}', 'paths': 0, 'stats': {}, 'bad': [],
+    pb = parse_and_build(text, **({'with_type_hints': False} if untyped else {}))
+    out = {'kind': 'infeasible', 'item': f'{show(prog)} +{extra_len} {errors}' + (' untyped-template' if untyped else ''), 'paths': 0, 'stats': {}, 'bad': [],
            'assumptions': [], 'exhausted': True}
     if 'error' in pb:
         return {'harness_error': f'program rejected: {pb}', 'item': show(prog)}
     Model = pb['Model']
-    lags, leads = Model.LAGS, Model.LEADS
+    ref = classify(prog)      # the lags / leads the SCRIPT needs (reference), not what the built class declares
+    lags, leads = ref['lags'], ref['leads']
     if lags + leads == 0:
         return out
     L = lags + leads + 1 + extra_len
@@ -213,7 +215,7 @@ def infeasible_case(item) -> Dict[str, Any]:
             m_ = path.model()
             t = m_.eval(tz, model_completion=True).as_long()
             # replay on real arrays with distinguishable finite data
-            mm = Model(list(range(L)))
+            mm = Model(list(range(L)))     # (the class built above: typed or untyped template)
             for i, n in enumerate(mm.names):
                 mm[n] = np.arange(L, dtype=float) * 0.25 + 1.5 + i
             st0 = lf.STATUS_LIST[m_.eval(z3.Int('status_all'), model_completion=True).as_long()]
@@ -285,11 +287,16 @@ def main() -> int:
         for extra in (0, 1, 2):
             for errors in ('raise', 'ignore'):
                 items.append(('infeasible', (p, extra, errors, None)))
+            if extra == 1:     # the class built from the template without type hints
+                items.append(('infeasible', (p, extra, 'raise', None, 'untyped')))
     for errors in ('raise', 'skip', 'ignore'):
         for t, offset in ((1, 'sym'), (-1, 'sym'), (0, 'zero')):
             for N in (1, 2):
                 items.append(('rejected', lf.default_cfg(N=N, B=1, errors=errors, t=t, offset=offset, finite=False,
                                                          faults=False, with_z=True)))
+                if N == 1:   # catch_first_error off: rejection of pre-existing non-finite values does not depend on it
+                    items.append(('rejected', lf.default_cfg(N=N, B=1, errors=errors, t=t, offset=offset, finite=False,
+                                                             faults=False, with_z=True, cfe=False)))
                 if N == 1:   # a rejected RE-solve (the period already carries a status) changes nothing either
                     items.append(('rejected', lf.default_cfg(N=N, B=1, errors=errors, t=t, offset=offset, finite=False,
                                                              faults=False, with_z=True, status0='sym')))
